@@ -78,6 +78,7 @@ type FuncSpec struct {
 	DeadReturns map[int]bool // return sites (ordinals) the contract declares unreachable: they must then really be unreachable
 	MayPanic    bool // explicit panic(..) statements are allowed behaviour (no obligation); listed in the evidence
 	Variant     string // property this contract variant is for ("" = base contract)
+	Invokes     []string // assumed higher-order function: the function passed as this parameter is called once (synchronously, non-nil arguments) during the call
 	UnderLock   string // the caller must hold this monitor lock (field path, e.g. ".lock"); held on entry, still held on return
 	GhostExit   []*GhostAssign
 	Devirt      []ast.Expr // concrete types to which interface calls in this function are resolved
@@ -188,7 +189,7 @@ var clauseKeywords = map[string]bool{
 	"inline": true, "pure": true, "requires": true, "ensures": true, "modifies": true, "panics": true,
 	"variant": true, "ghost": true, "loop": true, "invariant": true, "decreases": true, "unroll": true, "lemma": true,
 	"axiom": true, "package": true, "global": true, "trusted": true, "ghostfield": true, "opaque": true,
-	"timeout": true, "noframe": true, "maypanic": true, "deadreturn": true, "underlock": true, "end": true, "ghostglobal": true, "monitor": true, "ghostexit": true, "devirt": true, "transparent": true,
+	"timeout": true, "noframe": true, "maypanic": true, "deadreturn": true, "underlock": true, "invokes": true, "end": true, "ghostglobal": true, "monitor": true, "ghostexit": true, "devirt": true, "transparent": true,
 }
 
 type specLine struct {
@@ -757,6 +758,8 @@ func (sp *Specs) ParseSpecText(lines []specLine, file, pkgPath string) error {
 					n, _ := strconv.Atoi(f)
 					cur.DeadReturns[n] = true
 				}
+			case "invokes":
+				cur.Invokes = append(cur.Invokes, strings.Fields(s.rest)...)
 			case "underlock":
 				cur.UnderLock = "." + strings.TrimPrefix(strings.TrimSpace(s.rest), ".")
 			case "timeout":
